@@ -11,7 +11,7 @@ from collections import Counter
 from mc.engine.core import Collector, Result, Violation, pmap
 
 TAGS = ["c", "c[0]", "c[2]", "c[10]", "d", "d[1]", "q\u00e9[1]", "q\u00e9"]
-VALUES = [0, 1, True, False, [0, 1], [1], [], 2, 0.5, [0, 2], [True, 0]]
+VALUES = [0, 1, True, False, [0, 1], [1], [], 2, 0.5, [0, 2], [True, 0], 1.0, 0.0]  # 1.0 == True and 0.0 == False in Python, but they are not bits
 BOUNDS = {
     "quick": dict(shot_len=3, res_shots=2),
     "thorough": dict(shot_len=4, res_shots=3),
@@ -99,9 +99,14 @@ def check_shot(entries):
     entries = [(t, v) for t, v in entries]
     fails = []
     exp = _try(lambda: ref_register_bits(entries))
-    got = _try(lambda: QsysShot(list(entries)).to_register_bits())
+    shot = QsysShot(list(entries))
+    got = _try(lambda: shot.to_register_bits())
     if got != exp:
         fails.append((f"to_register_bits:{_shape(entries)}", f"shot {entries!r}: to_register_bits -> {got}, write-replay model -> {exp}"))
+    # the answer is a function of the entries: asking the same shot again (also after a refusal) changes nothing
+    again = _try(lambda: shot.to_register_bits())
+    if again != got and got == exp:
+        fails.append((f"to_register_bits:second-call:{_shape(entries)}", f"shot {entries!r}: first call -> {got}, second call on the same object -> {again}"))
     elif got[0] == "ok":
         for r, s in got[1].items():
             if set(s) - {"0", "1"}:
